@@ -65,6 +65,11 @@ type FS struct {
 	seq     int
 
 	// fault plan: applies to calls made by the task named Subject
+	// MaxOpen: size of the simulated descriptor table (0 = unlimited).  An open
+	// beyond it fails with EMFILE; nothing but Close gives a descriptor back
+	// (the schedule in which no finalizer comes to the rescue).
+	MaxOpen   int
+	OpenCount int
 	Subject   string
 	Plan      map[int]Fault
 	SubjCalls int
